@@ -89,7 +89,7 @@ func (g *sm4GcmAsm) calculateFirstCounter(nonce []byte, counter []byte, H []byte
 func ensureCapacity(array []byte, asked int) (head, tail []byte) {
 	remaining := cap(array) - len(array)
 	if remaining >= asked {
-		head = array
+		head = array[:len(array)+asked]
 	} else {
 		head = make([]byte, len(array)+asked)
 		copy(head, array)
